@@ -39,10 +39,11 @@ def import_kfac():
 
 
 # --------------------------------------------------------------------- Lean
-def lake_build():
-    """(ok, log). No-op when up to date."""
+def lake_build(pid=None):
+    """(ok, log). No-op when up to date. Builds the model driver and the property's theorem file."""
     t = time.time()
-    p = subprocess.run(['lake', 'build'], cwd=LEAN, capture_output=True, text=True)
+    targets = ['kfacmodel'] + ([f'KfacVerif.Props.{pid}'] if pid else ['KfacVerif'])
+    p = subprocess.run(['lake', 'build'] + targets, cwd=LEAN, capture_output=True, text=True)
     log = (p.stdout + p.stderr)[-6000:]
     return p.returncode == 0 and os.path.exists(MODEL_EXE), log, time.time() - t
 
